@@ -238,7 +238,7 @@ def run(chk):
     chk.rule = ("per format: seeded abstract descriptions inside the format's envelope (1-3 frames, 1-6 signals each incl. Motorola, signed, float, "
                 "multiplexed, value tables, units incl. non-ASCII, comments, attributes with definitions where the format carries them), each rendered "
                 "twice by the independent writer with independently drawn lexical choices (every 5th first rendering is the plainest one) and a "
-                "drawn import encoding; every rendering is one case. non-trivial = at least one non-default lexical choice; distinct by file bytes")
+                "drawn import encoding (DBC: the statement charset and the comment charset options are drawn independently); every rendering is one case. non-trivial = at least one non-default lexical choice; distinct by file bytes")
     ensure_vo()
     ok = chk.build_and_audit()
     cm = core.import_impl()
